@@ -29,7 +29,8 @@ def main():
              'distinct documents with a chord carrying signifiers or a non-kern spine',
         mc=[('MC_NoteGrammar', 'MC_NoteGrammar_c04.cfg', 'MC_NoteGrammar(ExtendedStripsToPlain, BasicDropsSignifiers)'),
             ('MC_SpinePaths', 'MC_SpinePaths_opts.cfg', 'MC_SpinePaths(CommuteLaw)')],
-        populations=[('main', dp.sess_c04, 110, 2500, {}), ('own_spine_types', dp.sess_c04, 30, 300, {'own_types': True})],
+        populations=[('main', dp.sess_c04, 110, 2500, {}), ('own_spine_types', dp.sess_c04, 30, 300, {'own_types': True}),
+                     ('multi_character_signifiers', dp.sess_c04, 20, 300, {'profile': 'multi_sigs'})],
         nontrivial=lambda s: bool(set(s['tags']) & {'chord', 'non-kern'}),
         symptom_of=symptom_of, explored=['natural_or_display_suffix'])
 
